@@ -44,11 +44,11 @@ CONFIGS: Dict[str, Dict[str, List[Dict[str, Any]]]] = {
         ],
     },
     "Minesweeper": {
-        "quick": [_c("default"), _c("r3c7m5", rows=3, cols=7, mines=5), _c("r4c5m3rw", rows=4, cols=5, mines=3, rewards=[2.0, -3.0, -5.0]), _c("r5c4m4rwint", rows=5, cols=4, mines=4, rewards=[2, -3, -5])],
+        "quick": [_c("default"), _c("r3c7m5", rows=3, cols=7, mines=5), _c("r4c5m3rw", rows=4, cols=5, mines=3, rewards=[2.0, -3.0, -5.0]), _c("r5c4m4rwint", rows=5, cols=4, mines=4, rewards=[2, -3, -5]), _c("cu_done_never", custom="done_never", rows=4, cols=5, mines=3, props=["C02", "C03"]), _c("cu_done_always", custom="done_always", rows=4, cols=5, mines=3, props=["C01", "C02", "C03"]), _c("cu_pyreward", custom="pyreward", rows=4, cols=5, mines=3, props=["C01", "C02", "C03"])],
         "thorough": [
             _c("default"), _c("r2c2m1", rows=2, cols=2, mines=1), _c("r3c7m5", rows=3, cols=7, mines=5),
             _c("r6c4m23", rows=6, cols=4, mines=23),
-            _c("r4c5m3rw", rows=4, cols=5, mines=3, rewards=[2.0, -3.0, -5.0]), _c("r5c4m4rwint", rows=5, cols=4, mines=4, rewards=[2, -3, -5]),
+            _c("r4c5m3rw", rows=4, cols=5, mines=3, rewards=[2.0, -3.0, -5.0]), _c("r5c4m4rwint", rows=5, cols=4, mines=4, rewards=[2, -3, -5]), _c("cu_done_never", custom="done_never", rows=4, cols=5, mines=3, props=["C02", "C03"]), _c("cu_done_always", custom="done_always", rows=4, cols=5, mines=3, props=["C01", "C02", "C03"]), _c("cu_pyreward", custom="pyreward", rows=4, cols=5, mines=3, props=["C01", "C02", "C03"]), _c("cu_done_mixed", custom="done_mixed", rows=4, cols=5, mines=3, props=["C01", "C02", "C03"])
         ],
     },
     "RubiksCube": {
@@ -58,7 +58,7 @@ CONFIGS: Dict[str, Dict[str, List[Dict[str, Any]]]] = {
             _c("n4s7L20", cube_size=4, scrambles=7, time_limit=20), _c("n5s1L3", cube_size=5, scrambles=1, time_limit=3),
             _c("n3s0L2", cube_size=3, scrambles=0, time_limit=2), _c("n7s100L200", cube_size=7, scrambles=100, time_limit=200),
             _c("n6s2L1", cube_size=6, scrambles=2, time_limit=1), _c("n2s1L1", cube_size=2, scrambles=1, time_limit=1),
-            _c("n3s2L2", cube_size=3, scrambles=2, time_limit=2), _c("mk_partlyL3", make_id="RubiksCube-partly-scrambled-v0", cube_size=3, scrambles=7, time_limit=3), _c("mk_partlyL33", make_id="RubiksCube-partly-scrambled-v0", cube_size=3, scrambles=7, time_limit=33), _c("mk_L2", make_id="RubiksCube-v0", time_limit=2)
+            _c("n3s2L2", cube_size=3, scrambles=2, time_limit=2), _c("mk_partlyL3", make_id="RubiksCube-partly-scrambled-v0", cube_size=3, scrambles=7, time_limit=3), _c("mk_partlyL33", make_id="RubiksCube-partly-scrambled-v0", cube_size=3, scrambles=7, time_limit=33), _c("mk_L2", make_id="RubiksCube-v0", time_limit=2), _c("cu_pyreward", custom="pyreward", time_limit=6, props=["C01", "C02", "C03"])
         ],
     },
     "SlidingTilePuzzle": {
@@ -66,20 +66,20 @@ CONFIGS: Dict[str, Dict[str, List[Dict[str, Any]]]] = {
         "thorough": [
             _c("default"), _c("g2m5L3", grid_size=2, moves=5, time_limit=3), _c("g3m20L7", grid_size=3, moves=20, time_limit=7),
             _c("g4m50sparse", grid_size=4, moves=50, reward="sparse", time_limit=30), _c("g3m1L2", grid_size=3, moves=1, time_limit=2),
-            _c("g2m0L1", grid_size=2, moves=0, time_limit=1), _c("g3m3sparse", grid_size=3, moves=3, reward="sparse", time_limit=20), _c("mk_L3", make_id="SlidingTilePuzzle-v0", time_limit=3)
+            _c("g2m0L1", grid_size=2, moves=0, time_limit=1), _c("g3m3sparse", grid_size=3, moves=3, reward="sparse", time_limit=20), _c("mk_L3", make_id="SlidingTilePuzzle-v0", time_limit=3), _c("cu_pyreward", custom="pyreward", time_limit=6, props=["C01", "C02", "C03"])
         ],
     },
     "Sudoku": {
-        "quick": [_c("default"), _c("veryeasy", gen="very-easy"), _c("tiny5u8", gen="tiny", n=5, db_dtype="uint8")],
+        "quick": [_c("default"), _c("veryeasy", gen="very-easy"), _c("tiny5u8", gen="tiny", n=5, db_dtype="uint8"), _c("cu_pyreward", custom="pyreward", props=["C01", "C02", "C03"])],
         "thorough": [_c("default"), _c("veryeasy", gen="very-easy"), _c("veryeasynp", gen="very-easy", np_db=True), _c("dummy", gen="dummy"), _c("tiny3", gen="tiny", n=3),
-                     _c("tiny5u8", gen="tiny", n=5, db_dtype="uint8"), _c("tiny4i64", gen="tiny", n=4, db_dtype="int64")],
+                     _c("tiny5u8", gen="tiny", n=5, db_dtype="uint8"), _c("tiny4i64", gen="tiny", n=4, db_dtype="int64"), _c("cu_pyreward", custom="pyreward", props=["C01", "C02", "C03"])],
     },
     "BinPack": {
         "quick": [_c("default"), _c("r10e12o5", gen="random", max_items=10, max_ems=12, split_same=2, obs_num_ems=5, debug=True),
                   # user-defined container sizes (smaller and not proportional to the 20-ft default), CSV and random instances
                   _c("csvbox", gen="csv", max_ems=30, obs_num_ems=30, container=[1200, 800, 1000], debug=True),
                   _c("r8e12cube", gen="random", max_items=8, max_ems=12, split_same=2, obs_num_ems=12, container=[700, 700, 700], debug=True),
-                  _c("r16e24s7", gen="random", max_items=16, max_ems=24, split_same=7, obs_num_ems=24, debug=True)],
+                  _c("r16e24s7", gen="random", max_items=16, max_ems=24, split_same=7, obs_num_ems=24, debug=True, c10_keys={"quick": 1500, "thorough": 6000}), _c("csvloose", gen="csvloose", max_ems=40, obs_num_ems=40, debug=True), _c("csvloosesparse", gen="csvloose", max_ems=40, obs_num_ems=20, reward="sparse", container=[3000, 2000, 2000], debug=True)],
         "thorough": [
             _c("default"), _c("r10e12o5", gen="random", max_items=10, max_ems=12, split_same=2, obs_num_ems=5, debug=True),
             _c("r10e12o5nonorm", gen="random", max_items=10, max_ems=12, split_same=2, obs_num_ems=5, normalize=False, debug=True),
@@ -90,8 +90,8 @@ CONFIGS: Dict[str, Dict[str, List[Dict[str, Any]]]] = {
             _c("csvbox", gen="csv", max_ems=30, obs_num_ems=30, container=[1200, 800, 1000], debug=True),
             _c("r8e12cube", gen="random", max_items=8, max_ems=12, split_same=2, obs_num_ems=12, container=[700, 700, 700], debug=True),
             _c("csvlong", gen="csv", max_ems=30, obs_num_ems=10, container=[9000, 1500, 1200], normalize=False, debug=True),
-            _c("r16e24s7", gen="random", max_items=16, max_ems=24, split_same=7, obs_num_ems=24, debug=True),
-            _c("r24e30s12", gen="random", max_items=24, max_ems=30, split_same=12, obs_num_ems=30, debug=True),
+            _c("r16e24s7", gen="random", max_items=16, max_ems=24, split_same=7, obs_num_ems=24, debug=True, c10_keys={"quick": 1500, "thorough": 6000}),
+            _c("r24e30s12", gen="random", max_items=24, max_ems=30, split_same=12, obs_num_ems=30, debug=True), _c("cu_pyreward", custom="pyreward", props=["C01", "C02", "C03"]), _c("csvloose", gen="csvloose", max_ems=40, obs_num_ems=40, debug=True), _c("csvloosesparse", gen="csvloose", max_ems=40, obs_num_ems=20, reward="sparse", container=[3000, 2000, 2000], debug=True)
         ],
     },
     "FlatPack": {
@@ -100,7 +100,7 @@ CONFIGS: Dict[str, Dict[str, List[Dict[str, Any]]]] = {
             _c("default"), _c("r1c1", row_blocks=1, col_blocks=1), _c("r1c3", row_blocks=1, col_blocks=3),
             _c("r2c2", row_blocks=2, col_blocks=2), _c("r3c2block", row_blocks=3, col_blocks=2, reward="block"),
             _c("toyrot", gen="toy_rot"), _c("toynorot", gen="toy_norot", reward="block"), _c("r2c3", row_blocks=2, col_blocks=3),
-            _c("r4c2", row_blocks=4, col_blocks=2), _c("r3c2", row_blocks=3, col_blocks=2), _c("r4c3", row_blocks=4, col_blocks=3),
+            _c("r4c2", row_blocks=4, col_blocks=2), _c("r3c2", row_blocks=3, col_blocks=2), _c("r4c3", row_blocks=4, col_blocks=3), _c("cu_pyreward", custom="pyreward", props=["C01", "C02", "C03"])
         ],
     },
     "JobShop": {
@@ -111,11 +111,11 @@ CONFIGS: Dict[str, Dict[str, List[Dict[str, Any]]]] = {
         ],
     },
     "Knapsack": {
-        "quick": [_c("default"), _c("n10b2sparse", items=10, budget=2.0, reward="sparse"), _c("grid12b2", gen="grid", items=12, budget=2.0), _c("n8b3int", items=8, budget=3)],
+        "quick": [_c("default"), _c("n10b2sparse", items=10, budget=2.0, reward="sparse"), _c("grid12b2", gen="grid", items=12, budget=2.0), _c("n8b3int", items=8, budget=3), _c("cu_pyreward", custom="pyreward", props=["C01", "C02", "C03"]), _c("dec14b2", gen="decimal", items=14, budget=2.0), _c("dec10b1p3sparse", gen="decimal", items=10, budget=1.3, reward="sparse")],
         "thorough": [
             _c("default"), _c("n3b05", items=3, budget=0.5), _c("n10b2sparse", items=10, budget=2.0, reward="sparse"),
             _c("n10b2", items=10, budget=2.0), _c("n50sparse", items=50, budget=12.5, reward="sparse"),
-            _c("grid12b2", gen="grid", items=12, budget=2.0), _c("grid8b1sparse", gen="grid", items=8, budget=1.0, reward="sparse"), _c("n8b3int", items=8, budget=3),
+            _c("grid12b2", gen="grid", items=12, budget=2.0), _c("grid8b1sparse", gen="grid", items=8, budget=1.0, reward="sparse"), _c("n8b3int", items=8, budget=3), _c("cu_pyreward", custom="pyreward", props=["C01", "C02", "C03"]), _c("dec14b2", gen="decimal", items=14, budget=2.0), _c("dec10b1p3sparse", gen="decimal", items=10, budget=1.3, reward="sparse"), _c("dec30b3p15", gen="decimal", items=30, budget=3.15)
         ],
     },
     "Tetris": {
@@ -154,13 +154,13 @@ CONFIGS: Dict[str, Dict[str, List[Dict[str, Any]]]] = {
         "thorough": [
             _c("default"), _c("n2c2d2", nodes=2, cap=2, demand=2), _c("n5c10d10", nodes=5, cap=10, demand=10),
             _c("n10c3d3sparse", nodes=10, cap=3, demand=3, reward="sparse"), _c("n10c3d3", nodes=10, cap=3, demand=3),
-            _c("n20sparse", nodes=20, cap=30, demand=10, reward="sparse"),
+            _c("n20sparse", nodes=20, cap=30, demand=10, reward="sparse"), _c("cu_pyreward", custom="pyreward", props=["C01", "C02", "C03"])
         ],
     },
     "LevelBasedForaging": {
         "quick": [_c("default"), _c("g6a3f2v2gridL7", grid_size=6, agents=3, food=2, fov=2, grid_obs=True, time_limit=7),
                   _c("g6a3f2v1L20", grid_size=6, agents=3, food=2, fov=1, time_limit=20),
-                  _c("g6a2f2v6rawpenintL15", grid_size=6, agents=2, food=2, fov=6, normalize=False, penalty=1, time_limit=15)],
+                  _c("g6a2f2v6rawpenintL15", grid_size=6, agents=2, food=2, fov=6, normalize=False, penalty=1, time_limit=15), _c("g8a2f6v8L30", grid_size=8, agents=2, food=6, fov=8, time_limit=30, c10_keys={"quick": 3000, "thorough": 12000}), _c("g10a3f12v3L30", grid_size=10, agents=3, food=12, fov=3, time_limit=30)],
         "thorough": [
             _c("default"), _c("g5a1f1v1L3", grid_size=5, agents=1, food=1, fov=1, time_limit=3),
             _c("g6a3f2v2gridL7", grid_size=6, agents=3, food=2, fov=2, grid_obs=True, time_limit=7),
@@ -172,7 +172,7 @@ CONFIGS: Dict[str, Dict[str, List[Dict[str, Any]]]] = {
             _c("g6a3f2v1L20", grid_size=6, agents=3, food=2, fov=1, time_limit=20),
             # constructor arguments given as Python ints where floats are documented (dtype promotion paths)
             _c("g6a2f2v6rawpenintL15", grid_size=6, agents=2, food=2, fov=6, normalize=False, penalty=1, time_limit=15),
-            _c("g6a2f2v2gridpenint", grid_size=6, agents=2, food=2, fov=2, grid_obs=True, penalty=2, time_limit=25), _c("mk_L5", make_id="LevelBasedForaging-v0", time_limit=5)
+            _c("g6a2f2v2gridpenint", grid_size=6, agents=2, food=2, fov=2, grid_obs=True, penalty=2, time_limit=25), _c("mk_L5", make_id="LevelBasedForaging-v0", time_limit=5), _c("g8a2f6v8L30", grid_size=8, agents=2, food=6, fov=8, time_limit=30, c10_keys={"quick": 3000, "thorough": 12000}), _c("g10a3f12v3L30", grid_size=10, agents=3, food=12, fov=3, time_limit=30)
         ],
     },
     "Maze": {
@@ -232,11 +232,13 @@ CONFIGS: Dict[str, Dict[str, List[Dict[str, Any]]]] = {
         ],
     },
     "Snake": {
-        "quick": [_c("default"), _c("r3c5L7", rows=3, cols=5, time_limit=7), _c("r3c4L60", rows=3, cols=4, time_limit=60), _c("mk_L5", make_id="Snake-v1", time_limit=5)],
+        "quick": [_c("default"), _c("r3c5L7", rows=3, cols=5, time_limit=7), _c("r3c4L60", rows=3, cols=4, time_limit=60), _c("mk_L5", make_id="Snake-v1", time_limit=5),
+                  _c("r4c4L200", rows=4, cols=4, time_limit=200), _c("r2c3L40", rows=2, cols=3, time_limit=40), _c("r8c17L9500", rows=8, cols=17, time_limit=9500, deep=["complete", 9500])],
         "thorough": [
             _c("default"), _c("r2c2L3", rows=2, cols=2, time_limit=3), _c("r3c5L7", rows=3, cols=5, time_limit=7),
             _c("r6c4L200", rows=6, cols=4, time_limit=200), _c("r4c6L2", rows=4, cols=6, time_limit=2), _c("r5c3L1", rows=5, cols=3, time_limit=1),
-            _c("r3c4L60", rows=3, cols=4, time_limit=60), _c("mk_L5", make_id="Snake-v1", time_limit=5)
+            _c("r3c4L60", rows=3, cols=4, time_limit=60), _c("mk_L5", make_id="Snake-v1", time_limit=5),
+            _c("r4c4L200", rows=4, cols=4, time_limit=200), _c("r2c3L40", rows=2, cols=3, time_limit=40), _c("r5c6L500", rows=5, cols=6, time_limit=500), _c("r8c17L9500", rows=8, cols=17, time_limit=9500, deep=["complete", 9500])
         ],
     },
     "Sokoban": {
@@ -245,12 +247,12 @@ CONFIGS: Dict[str, Dict[str, List[Dict[str, Any]]]] = {
         "thorough": [
             _c("toy", gen="toy"), _c("simple", gen="simple"), _c("randL7", gen="harness", border=False, time_limit=7),
             _c("randborder", gen="harness", border=True, time_limit=60), _c("randsparseL3", gen="harness", border=False, reward="sparse", time_limit=3),
-            _c("toyL2", gen="toy", time_limit=2), _c("simpleL1", gen="simple", time_limit=1), _c("rand", gen="harness", border=False, time_limit=40),
+            _c("toyL2", gen="toy", time_limit=2), _c("simpleL1", gen="simple", time_limit=1), _c("rand", gen="harness", border=False, time_limit=40), _c("cu_pyreward", custom="pyreward", time_limit=6, props=["C01", "C02", "C03"])
         ],
     },
     "TSP": {
-        "quick": [_c("default"), _c("n5sparse", cities=5, reward="sparse"), _c("n4", cities=4)],
-        "thorough": [_c("default"), _c("n1", cities=1), _c("n2", cities=2), _c("n5sparse", cities=5, reward="sparse"), _c("n5", cities=5), _c("n20sparse", cities=20, reward="sparse"), _c("n4", cities=4)],
+        "quick": [_c("default"), _c("n5sparse", cities=5, reward="sparse"), _c("n4", cities=4), _c("cu_pyreward", custom="pyreward", props=["C01", "C02", "C03"])],
+        "thorough": [_c("default"), _c("n1", cities=1), _c("n2", cities=2), _c("n5sparse", cities=5, reward="sparse"), _c("n5", cities=5), _c("n20sparse", cities=20, reward="sparse"), _c("n4", cities=4), _c("cu_pyreward", custom="pyreward", props=["C01", "C02", "C03"])],
     },
 }
 
@@ -328,6 +330,8 @@ def build(env: str, cfg: Dict[str, Any]):
 
     c = {k: v for k, v in cfg.items() if k != "id"}
     tl = {"time_limit": c["time_limit"]} if "time_limit" in c else {}
+    if "custom" in c:
+        return _build_custom(env, c)
     if "make_id" in c:
         # built through the registry with a caller override, the way most users construct environments; the other keys of
         # such a configuration only tell the models what the registered id documents (cube size, scramble length ...)
@@ -402,6 +406,19 @@ def build(env: str, cfg: Dict[str, Any]):
             kw["generator"] = bg.RandomGenerator(c["max_items"], c["max_ems"], split_num_same_items=c.get("split_same", 5), **dims)
         elif g == "toy":
             kw["generator"] = bg.ToyGenerator()
+        elif g == "csvloose":
+            # a user instance that is NOT a cut of the container: a few boxes that all fit with room to spare
+            import csv as _csv
+
+            fd, path = tempfile.mkstemp(prefix="jmon-binpack-loose-", suffix=".csv")
+            L_, W_, H_ = c.get("container", [5870, 2330, 2200])
+            rows = [("a", L_ // 5, W_ // 3, H_ // 4, 3), ("b", L_ // 6, W_ // 2, H_ // 5, 2), ("c", L_ // 4, W_ // 4, H_ // 3, 1), ("d", L_ // 10, W_ // 5, H_ // 2, 2)]
+            with os.fdopen(fd, "w", newline="") as f_:
+                w_ = _csv.writer(f_)
+                w_.writerow(["Item_Name", "Length", "Width", "Height", "Quantity"])
+                w_.writerows(rows)
+            _tmpfiles.append(path)
+            kw["generator"] = bg.CSVGenerator(path, c["max_ems"], **dims)
         elif g == "csv":
             src = bg.RandomGenerator(12, c["max_ems"], split_num_same_items=2, **dims)
             st = src(jax.random.PRNGKey(7))
@@ -448,6 +465,8 @@ def build(env: str, cfg: Dict[str, Any]):
         kw = {}
         if c.get("gen") == "grid":
             kw["generator"] = make_knapsack_grid_generator(c["items"], c["budget"])
+        elif c.get("gen") == "decimal":
+            kw["generator"] = make_knapsack_decimal_generator(c["items"], c["budget"])
         elif "items" in c:
             kw["generator"] = RandomGenerator(c["items"], c["budget"])
         if "reward" in c:
@@ -585,6 +604,57 @@ def build(env: str, cfg: Dict[str, Any]):
     raise KeyError(env)
 
 
+def _build_custom(env: str, c: Dict[str, Any]):
+    """User-defined components plugged into the documented extension points (RewardFn / DoneFn subclasses) that return plain
+    Python values instead of JAX arrays. What such an episode is worth is the user's business; the protocol (C03), the specs
+    (C01) and purity (C02) must hold regardless, so these configurations carry `props` restricting them to those checks."""
+    import importlib
+
+    import jumanji.environments as JE
+
+    kind = c["custom"]
+    mod = {
+        "Minesweeper": "logic.minesweeper", "RubiksCube": "logic.rubiks_cube", "SlidingTilePuzzle": "logic.sliding_tile_puzzle", "Sudoku": "logic.sudoku",
+        "BinPack": "packing.bin_pack", "FlatPack": "packing.flat_pack", "Knapsack": "packing.knapsack", "CVRP": "routing.cvrp", "TSP": "routing.tsp",
+        "Sokoban": "routing.sokoban",
+    }[env]
+    kw: Dict[str, Any] = {}
+    if env == "Sokoban":
+        from jumanji.environments.routing.sokoban.generator import ToyGenerator
+
+        kw["generator"] = ToyGenerator()
+    if env == "Minesweeper":
+        from jumanji.environments.logic.minesweeper.generator import UniformSamplingGenerator
+
+        kw["generator"] = UniformSamplingGenerator(4, 5, 3)
+    if kind.startswith("done_"):
+        done = importlib.import_module(f"jumanji.environments.{mod}.done")
+        if kind == "done_never":
+            class Fn(done.DoneFn):
+                def __call__(self, state, next_state, action):
+                    return False
+        elif kind == "done_always":
+            class Fn(done.DoneFn):
+                def __call__(self, state, next_state, action):
+                    return True
+        else:  # default rule, but handed back as a Python-level `or` of JAX booleans mixed with a Python bool
+            class Fn(done.DefaultDoneFn):
+                def __call__(self, state, next_state, action):
+                    return bool(False) | super().__call__(state, next_state, action)
+        kw["done_function"] = Fn()
+        return getattr(JE, env)(**kw)
+    rew = importlib.import_module(f"jumanji.environments.{mod}.reward")
+
+    class PyReward(rew.RewardFn):
+        def __call__(self, *args, **kwargs):
+            return 0.5  # a Python float
+
+    kw["reward_function" if env == "Minesweeper" else "reward_fn"] = PyReward()
+    if "time_limit" in c:
+        kw["time_limit"] = c["time_limit"]
+    return getattr(JE, env)(**kw)
+
+
 def cleanup() -> None:
     for p in _tmpfiles:
         try:
@@ -715,6 +785,30 @@ def make_sokoban_harness_generator(border: bool, n_levels: int = 24, seed: int =
     return HarnessGenerator()
 
 
+def make_knapsack_decimal_generator(num_items: int, total_budget: float, step: float = 0.05):
+    """Harness Knapsack generator with "catalogue" weights: multiples of 0.05 (not representable in binary floating point), so
+    that sums of weights meet the budget up to round-off - exact fits as a user with decimal data meets them."""
+    import jax
+    import jax.numpy as jnp
+    from jumanji.environments.packing.knapsack.generator import Generator
+    from jumanji.environments.packing.knapsack.types import State
+
+    class DecimalGenerator(Generator):
+        def __call__(self, key):
+            key, wk, vk = jax.random.split(key, 3)
+            weights = jax.random.randint(wk, (self.num_items,), 1, int(round(1.0 / step))).astype(jnp.float32) * jnp.float32(step)
+            values = jax.random.randint(vk, (self.num_items,), 1, 21).astype(jnp.float32) * jnp.float32(0.05)
+            return State(
+                weights=weights,
+                values=values,
+                packed_items=jnp.zeros(self.num_items, dtype=bool),
+                remaining_budget=jnp.array(self.total_budget, float),
+                key=key,
+            )
+
+    return DecimalGenerator(num_items, total_budget)
+
+
 def make_knapsack_grid_generator(num_items: int, total_budget: float):
     """Harness Knapsack generator (subclass of the public Generator): weights are multiples of 1/8 in (0, 1], values
     uniform, so that items whose weight equals the remaining budget exactly (in float32) really occur."""
@@ -836,7 +930,15 @@ def random_config(env: str, rng) -> Dict[str, Any]:
     elif env == "RobotWarehouse":
         for _ in range(50):
             sr, sc, h, q = ri(1, 2), ch([1, 3, 5]), ri(1, 4), ri(1, 6)
-            if sr * sc >= 2 and 2 * sr * sc * h > q + 1:  # more shelves than the request queue holds (a 1x1 layout has none)
+            if sr * sc < 2:
+                continue  # a 1x1 layout has no shelf cell at all
+            try:  # the floor must hold more shelves than the request queue (otherwise no new request can ever be drawn)
+                from jumanji.environments.routing.robot_warehouse.generator import RandomGenerator as _RW
+
+                n_shelves = int(len(_RW(shelf_rows=sr, shelf_columns=sc, column_height=h, num_agents=1, sensor_range=1, request_queue_size=q).shelf_ids))
+            except Exception:
+                continue
+            if n_shelves > q + 1:
                 break
         c = dict(shelf_rows=sr, shelf_cols=sc, height=h, agents=ri(1, 4), sensor=ri(1, 2), queue=q, time_limit=ri(1, 30))
     elif env == "Snake":
